@@ -3,8 +3,9 @@
 The Lean model of the decision (`Model/LiveRange.lean: ifmToFuseP`) is parametric in the conditions that pending repairs
 of /repo add; each switch is read off the real function by calling it on one stub operation that differs from an
 accepted candidate in exactly that attribute (real `Tensor` objects, attribute bags for the operation, like
-`liverange_lib.stub_records`). A switch that cannot be determined (the accepted baseline candidate is not accepted)
-raises: the probe no longer understands the function and the model must be looked at.
+`liverange_lib.stub_records`). When the baseline candidate is not accepted the probe no longer understands the function:
+the unrepaired rules are emitted and the correspondence of ./check C12 (harness/inplace_lib.py, liverange_lib.py) reports
+what differs.
 
 * `memcpyChecksWriteProtection` - the Memcpy branch refuses a write protected IFM (/verif_patches/C01-27)
 * `elementwiseChecksVariable`   - the elementwise branch refuses an IFM that is a variable tensor (/verif_patches/C12-11)
@@ -29,8 +30,8 @@ def probe():
         t = Tensor([1, 4, 4, 8], DataType.int8, name)
         t.format = TensorFormat.NHWC
         t.purpose = TensorPurpose.FeatureMap
-        t.consumer_list = [None]
-        t.ops = [None]
+        t.consumer_list = [_O(name="reader")]
+        t.ops = [_O(name="writer")]
         return t
 
     def run(kind, **attrs):
@@ -53,8 +54,17 @@ def probe():
     return out
 
 
+def probe_or_default():
+    """the probe; when the function no longer accepts the baseline candidates (it was changed beyond the switches known
+    here) the unrepaired rules are assumed and the correspondence of ./check C12 reports what differs"""
+    try:
+        return probe()
+    except ValueError:
+        return {"memcpy_wp": False, "elementwise_var": False, "memcpy_var": False}
+
+
 def emit(repo):
-    p = probe()
+    p = probe_or_default()
     text = HEADER + f"""
 namespace VelaVerif.Gen.InPlaceRules
 
